@@ -135,7 +135,8 @@ SELECTIONS = [
 
 SEL_FLAGS = ["--branches", "--no-branches", "--tags", "--no-tags", "--remotes", "--no-remotes", "--notes", "--stash"]
 SEL_PATTERNS = ["refs/heads", "refs/heads/dev", "refs/heads/main", "refs/tags", "refs/remotes/origin", "refs", "refs/pull", "refs/foo",
-                "/refs/(heads|remotes)/.*/", "/.*main/", "/refs/tags/v.*/", "/.*/", "/refs/heads/(d|dev|main)/", "@tags", "@branches", "@remotes"]
+                "/refs/(heads|remotes)/.*/", "/.*main/", "/refs/tags/v.*/", "/.*/", "/refs/heads/(d|dev|main)/", "@tags", "@branches", "@remotes",
+                "//", "refs/none/such"]
 
 
 def random_selection(rng):
